@@ -23,8 +23,10 @@ pub fn gen_value(rng: &mut Rng, t: &Ty, defs: &HashMap<String, Ty>, depth: usize
         Ty::Int => json!(*rng.pick(INTS)),
         Ty::Float => json!(*rng.pick(FLOATS)),
         Ty::Str => json!(*rng.pick(STRS)),
-        Ty::Object => match rng.below(5) {
+        Ty::Object => match rng.below(6) {
             0 => json!({"free": [1, "x", {"y": true}]}),
+            // a foreign payload is passed on untouched: its null members are data
+            5 => json!({"gone": null, "deep": {"also": null, "kept": 1}, "list": [null, {"n": null}]}),
             1 => json!([1, 2]),
             2 => json!("str"),
             3 => json!(7),
@@ -74,6 +76,37 @@ pub fn drop_nulls(v: &Value) -> Value {
         Value::Object(m) => Value::Object(m.iter().filter(|(_, x)| !x.is_null()).map(|(k, x)| (k.clone(), drop_nulls(x))).collect()),
         Value::Array(a) => Value::Array(a.iter().map(drop_nulls).collect()),
         o => o.clone(),
+    }
+}
+
+/// Type-directed form of "absent optionals are omitted or null": a null is dropped only where the
+/// IDL says *optional struct field*; a null VALUE of a map entry (`[string]?T`) or inside a foreign
+/// `object` is data and stays.
+pub fn norm_typed(v: &Value, t: &Ty, defs: &HashMap<String, Ty>) -> Value {
+    let resolved = match t {
+        Ty::Name(x) => defs.get(x).cloned().unwrap_or(Ty::Object),
+        o => o.clone(),
+    };
+    match (&resolved, v) {
+        (Ty::Struct(fs), Value::Object(m)) => {
+            let mut out = Map::new();
+            for (k, x) in m {
+                match fs.iter().find(|(n, _)| n == k) {
+                    Some((_, Ty::Opt(_))) if x.is_null() => {}
+                    Some((_, ft)) => {
+                        out.insert(k.clone(), norm_typed(x, ft, defs));
+                    }
+                    None => {
+                        out.insert(k.clone(), x.clone());
+                    }
+                }
+            }
+            Value::Object(out)
+        }
+        (Ty::Opt(inner), x) if !x.is_null() => norm_typed(x, inner, defs),
+        (Ty::Array(et), Value::Array(a)) => Value::Array(a.iter().map(|x| norm_typed(x, et, defs)).collect()),
+        (Ty::Dict(et), Value::Object(m)) => Value::Object(m.iter().map(|(k, x)| (k.clone(), norm_typed(x, et, defs))).collect()),
+        (_, x) => x.clone(),
     }
 }
 
@@ -537,7 +570,13 @@ fn judge_case(ctx: &Ctx, idl: &Idl, text: &str, case: &Value, res: &Value) {
         return;
     }
     // 1. request on the wire
-    let args = drop_nulls(&case["args"]);
+    let defs = defs_of(idl);
+    let in_ty = Ty::Struct(m.map(|m| fields(&m.a)).unwrap_or_default());
+    let out_ty = Ty::Struct(m.map(|m| fields(m.b.as_ref().unwrap())).unwrap_or_default());
+    let err_ty = |name: &str| -> Ty { idl.members.iter().find(|x| x.kind == MKind::Error && x.name == name).map(|x| x.a.clone()).unwrap_or(Ty::Object) };
+    let drop_nulls_in = |v: &Value| norm_typed(v, &in_ty, &defs);
+    let drop_nulls_out = |v: &Value| norm_typed(v, &out_ty, &defs);
+    let args = drop_nulls_in(&case["args"]);
     if wire_req.len() != 1 {
         ctx.violation("c08:request-count-on-wire", wit(format!("{} request frames on the wire", wire_req.len())));
         return;
@@ -547,7 +586,7 @@ fn judge_case(ctx: &Ctx, idl: &Idl, text: &str, case: &Value, res: &Value) {
         ctx.violation("c08:request-method-name", wit(format!("method on the wire {} expected {}", rq["method"], full)));
         return;
     }
-    let got_params = drop_nulls(rq.get("parameters").unwrap_or(&json!({})));
+    let got_params = drop_nulls_in(rq.get("parameters").unwrap_or(&json!({})));
     if got_params != args {
         ctx.violation("c08:request-parameters-on-wire", wit(format!("parameters on the wire {} expected {}", got_params, args)));
         return;
@@ -560,7 +599,7 @@ fn judge_case(ctx: &Ctx, idl: &Idl, text: &str, case: &Value, res: &Value) {
     }
     // 2. what the implementation saw
     let seen = res["server_saw"].as_array().cloned().unwrap_or_default();
-    if seen.len() != 1 || seen[0]["method"] != json!(method) || drop_nulls(&seen[0]["args"]) != args {
+    if seen.len() != 1 || seen[0]["method"] != json!(method) || drop_nulls_in(&seen[0]["args"]) != args {
         ctx.violation("c08:implementation-saw-different-values", wit(format!("implementation saw {} expected {{method: {}, args: {}}}", Value::Array(seen), method, args)));
         return;
     }
@@ -570,19 +609,19 @@ fn judge_case(ctx: &Ctx, idl: &Idl, text: &str, case: &Value, res: &Value) {
     let mut expect_frames: Vec<Value> = Vec::new();
     if !want_oneway {
         if kind == "reply" {
-            expect_frames.push(json!({"parameters": drop_nulls(&script["value"])}));
+            expect_frames.push(json!({"parameters": drop_nulls_out(&script["value"])}));
         } else if kind == "stream" {
             let vals = script["values"].as_array().cloned().unwrap_or_default();
             let n = vals.len();
             for (k, v) in vals.iter().enumerate() {
                 if k + 1 < n {
-                    expect_frames.push(json!({"continues": true, "parameters": drop_nulls(v)}));
+                    expect_frames.push(json!({"continues": true, "parameters": drop_nulls_out(v)}));
                 } else {
-                    expect_frames.push(json!({"parameters": drop_nulls(v)}));
+                    expect_frames.push(json!({"parameters": drop_nulls_out(v)}));
                 }
             }
         } else {
-            expect_frames.push(json!({"error": format!("{}.{}", idl.name, script["error"].as_str().unwrap_or("")), "parameters": drop_nulls(&script["value"])}));
+            expect_frames.push(json!({"error": format!("{}.{}", idl.name, script["error"].as_str().unwrap_or("")), "parameters": norm_typed(&script["value"], &err_ty(script["error"].as_str().unwrap_or("")), &defs)}));
         }
     }
     let norm = |f: &Value| -> Value {
@@ -590,7 +629,10 @@ fn judge_case(ctx: &Ctx, idl: &Idl, text: &str, case: &Value, res: &Value) {
         if o.get("continues") == Some(&json!(false)) {
             o.remove("continues");
         }
-        let p = drop_nulls(o.get("parameters").unwrap_or(&json!({})));
+        let p = match o.get("error").and_then(|e| e.as_str()) {
+            Some(e) => norm_typed(o.get("parameters").unwrap_or(&json!({})), &err_ty(e.rsplit('.').next().unwrap_or("")), &defs),
+            None => drop_nulls_out(o.get("parameters").unwrap_or(&json!({}))),
+        };
         // an error without parameters and one with {} are the same on the wire
         o.insert("parameters".into(), p);
         Value::Object(o)
@@ -619,11 +661,11 @@ fn judge_case(ctx: &Ctx, idl: &Idl, text: &str, case: &Value, res: &Value) {
     };
     let norm_item = |v: &Value| -> Value {
         if let Some(ok) = v.get("ok") {
-            json!({"ok": drop_nulls(ok)})
+            json!({"ok": drop_nulls_out(ok)})
         } else {
             let e = &v["err"];
             // an error without parameters: `None` on the client, `{}` in the expectation
-            let a = drop_nulls(e.get("args").unwrap_or(&Value::Null));
+            let a = norm_typed(e.get("args").unwrap_or(&Value::Null), &err_ty(e["variant"].as_str().unwrap_or("")), &defs);
             json!({"err": {"variant": e["variant"].clone(), "args": if a.is_null() { json!({}) } else { a }}})
         }
     };
